@@ -82,7 +82,7 @@ JOBS += [
     # unbounded contracts for BSS float do not close (cbmc > 300 s, also per stream / cadical); bounded jobs below
     ej('byte_stream_split_encode_float', loops=2, note='UNDECIDED unbounded: timeout; see ..._bounded'),
     ej('byte_stream_split_decode_float', loops=2, note='UNDECIDED unbounded: timeout; see ..._bounded'),
-    ej('byte_stream_split_encode_double', loops=2), ej('byte_stream_split_decode_double', loops=1),
+    ej('byte_stream_split_encode_double', loops=2, note='UNDECIDED unbounded: cbmc timeout 1500 s; see ..._bounded'), ej('byte_stream_split_decode_double', loops=1),
     ej('unpack_bools', loops=2),   # full count domain (591c517)
     # domain of the SSE kernel is documented as bytes 0/1 ("Input bytes should be 0 or 1"); the claim is made element by
     # element for bytes in {0,1}.  Observation (not a job): for other byte values it packs bit 0, the scalar packs (byte != 0).
@@ -121,6 +121,12 @@ for dirn in ('encode', 'decode'):
                                 '__builtin_ia32_punpcklbw128.0:9', '__builtin_ia32_punpcklwd128.0:5'],
                      functions=['carquet_sse_byte_stream_split_%s_float' % dirn], level='bounded',
                      bound='count 0..47, all data, every stream and position', wip=True, timeout=600))
+JOBS.append(dict(name='c15_sse_byte_stream_split_encode_double_bounded', entry='h_sse_bss_encode_double_bounded', prop='C15',
+                 harness='harness/C15/sse.c', overlays=[], loop_contracts=False, defines=E['defines'], extra_sources=E['extra_sources'],
+                 trusted=E['trusted'], unwindset=['carquet_sse_byte_stream_split_encode_double.0:9', 'carquet_sse_byte_stream_split_encode_double.1:25',
+                                                  'carquet_sse_byte_stream_split_encode_double.2:9', 'carquet_sse_byte_stream_split_encode_double.3:3'],
+                 functions=['carquet_sse_byte_stream_split_encode_double'], level='bounded',
+                 bound='count 0..47, all data, every stream and position', wip=True, timeout=600))
 def lemma(fn, **kw):
     d = dict(name='c15_sse_' + fn, entry='h_sse_' + fn, loop_contracts=False, unwind=66, functions=['carquet_sse_' + fn], wip=True)
     d.update(E); d['overlays'] = []; d.update(kw)
@@ -154,7 +160,7 @@ VALIDATED = set("""
 c15_dispatch_isa_subset c15_scalar_prefix_sum_i32 c15_scalar_prefix_sum_i64 c15_scalar_unpack_bools c15_scalar_build_null_bitmap
 c15_sse_gather_i64 c15_sse_gather_float c15_sse_gather_double c15_sse_memset_small_bounded c15_sse_memcpy_small_bounded
 c15_avx512_pack_bools_bounded c15_avx512_unpack_bools_bounded c15_avx2_pack_bools_bounded c15_sse_byte_stream_split_decode_double
-c15_sse_match_length_bounded c15_sse_byte_stream_split_encode_float_bounded c15_sse_byte_stream_split_decode_float_bounded
+c15_sse_byte_stream_split_encode_double_bounded c15_sse_match_length_bounded c15_sse_byte_stream_split_encode_float_bounded c15_sse_byte_stream_split_decode_float_bounded
 c15_sse_crc32c_check_value c15_sse_unpack_bools c15_sse_crc32c c15_scalar_match_copy_bounded c15_sse_match_copy_bounded
 c15_scalar_gather_i32 c15_scalar_gather_i64 c15_scalar_gather_float
 c15_scalar_gather_double c15_scalar_byte_split_encode_float c15_scalar_byte_split_decode_float
@@ -165,7 +171,7 @@ c15_sse_fill_def_levels c15_sse_prefix_sum_i32 c15_sse_prefix_sum_i64 c15_sse_ga
 c15_sse_bitunpack8_4bit c15_sse_bitunpack8_8bit c15_sse_pack_bools_01
 c15_sse_find_run_length_i32 c15_sse_count_non_nulls c15_sse_build_null_bitmap
 """.split())
-THOROUGH = {'c15_sse_byte_stream_split_encode_double': 800, 'c15_sse_byte_stream_split_decode_double': 85, 'c15_sse_match_length_bounded': 270, 'c15_sse_byte_stream_split_decode_float_bounded': 350, 'c15_sse_gather_i64': 300, 'c15_sse_gather_float': 510, 'c15_sse_gather_double': 300, 'c15_sse_crc32c': 100, 'c15_scalar_match_copy_bounded': 105, 'c15_sse_match_copy_bounded': 115, 'c15_scalar_byte_split_encode_double': 220, 'c15_scalar_byte_split_decode_double': 60,
+THOROUGH = {'c15_sse_byte_stream_split_encode_double_bounded': 510, 'c15_sse_byte_stream_split_decode_double': 85, 'c15_sse_match_length_bounded': 270, 'c15_sse_byte_stream_split_decode_float_bounded': 350, 'c15_sse_gather_i64': 300, 'c15_sse_gather_float': 510, 'c15_sse_gather_double': 300, 'c15_sse_crc32c': 100, 'c15_scalar_match_copy_bounded': 105, 'c15_sse_match_copy_bounded': 115, 'c15_scalar_byte_split_encode_double': 220, 'c15_scalar_byte_split_decode_double': 60,
             'c15_sse_gather_i32': 300, 'c15_sse_prefix_sum_i32': 95, 'c15_sse_prefix_sum_i64': 90}
 NOTES = {
     'c15_sse_prefix_sum_i32_ub': 'FINDING (open): tail loop still does int32 sum += values[i] (signed overflow); vector part wraps. Functional job c15_sse_prefix_sum_i32 runs without the signed-overflow check.',
